@@ -155,6 +155,7 @@ type Op struct {
 	Exec     func(t *Thread, alt int)  // runs in the scheduler goroutine
 	Code     uint64                    // extra value mixed into the history (e.g. operation result)
 	FreeAlts bool                      // alternatives are environment/input choices, not deviations
+	Global   bool                      // may wake other threads (close, cancel): dependent with every other transition
 
 	isSel      bool
 	cases      []Case
